@@ -265,7 +265,10 @@ var translationAssumptions = []string{
 	"the VC generator gvc itself (own code, no independent checker): /verif/gvc",
 	"integers are mathematical (no wrap-around); unsigned values carry a >= 0 range fact",
 	"a string is a finite sequence of bytes; slices have value semantics (no aliasing through append)",
-	"mutexes, goroutines, WaitGroups, contexts are not modelled: only sequential executions are covered",
+	"goroutines are verified one at a time as sequential procedures (channels carry protocols, select is a nondeterministic choice, go checks the callee's precondition and frame): interleavings, blocking, cancellation instants, leaks and races are NOT modelled; mutexes, WaitGroups, contexts and errgroup have no effect in the model",
+	"facts a goroutine relies on between two of its steps are not invalidated by other goroutines (ownership of a tree travels with the channel message); shared state is covered only by the rely clauses",
+	"a closure's precondition is checked where the closure is created and assumed when it runs; a closure runs at most once (true of every closure in the repository: each is consumed by one iter.Pull2, range or go statement)",
+	"coroutines (iter.Pull2): nothing about the heap survives a resume of the producer except what the stream contract says; heap separation between trees already yielded and the tree under construction is not modelled",
 	"deferred calls run LIFO at every return; panics are not control flow (their absence is an obligation)",
 	"allocation returns a reference distinct from everything reachable before; everything stored in the heap is allocated",
 	"the heap is finite and the children relation is acyclic (structural recursion on trees is accepted as terminating)",
